@@ -84,8 +84,13 @@ def _fault_op(rng, sids):
         return [("send", sids.next(), rng.choice(BAD), rng.choice(POL))]
     if r < 0.80:
         return [("send", sids.next(), "ok", rng.choice(POL))]
-    if r < 0.86:
+    if r < 0.84:
         return [("subraise", rng.choice(["conn", "msg"]), 1)]
+    if r < 0.86:
+        # an application whose connection callback takes a few loop passes; typically while a flush is held up and the link dies,
+        # so that the read loop and the blocked sender both notice the loss
+        return [("subslow", rng.choice([1, 2, 4, 8])), ("block", 1), ("send", sids.next(), "ok", rng.choice(POL)), ("turn", rng.randint(0, 3)),
+                ("peer", rng.choice(["reset", "timeout", "eof"]))]
     if r < 0.90:
         return [("reset",)]
     if r < 0.93:
